@@ -76,6 +76,17 @@ create type default::Post {
 };
 create type default::SpecialPost extending default::Post {
   create property extra -> int64; };
+create type default::Log { create property msg -> str; };
+alter type default::Post {
+  create trigger log_readers after insert, update for each do (
+    insert default::Log {
+      msg := (__new__.title ?? '') ++ <str>count(__new__.readers)
+             ++ <str>count(__new__.ptags) });
+};
+alter type default::Team {
+  create trigger log_members after insert, update for all do (
+    insert default::Log { msg := <str>count(__new__.members.friends) });
+};
 create global default::cur -> str;
 create global default::lim -> int64 { set default := 10 };
 create required global default::tenant -> str { set default := 't' };
